@@ -294,3 +294,24 @@ def check_conf_plumbing(ctx, rule='conf-plumbing', option=None):
             ctx.holds(rule, fi, '%s: element field compiled with the class configuration' % cname, 'repeated / optional elements see the class options' + tag, fi.node.lineno)
         else:
             ctx.violation(rule, fi, '%s._compile' % cname, 'the element field is not compiled with the class configuration: class-level options are ignored inside repeated / optional fields' + tag, fi.node.lineno)
+
+
+def ref_strategies(repo):
+    """the four Ref strategy functions by role (from the strategy table, not by name):
+    dict(unpack_packet, pack_packet, unpack_callable, pack_callable)"""
+    ci = repo.cls('Ref')
+    out = {}
+    for st in repo.strategies(ci):
+        gs = set()
+        for g in st['guard_sets']:
+            gs |= set(g)
+        up, pk = st['unpack'], st['pack']
+        if up is None or pk is None or up.node.name.endswith('noop'):
+            continue
+        if 'isinstance(self.prototype, Packet)' in gs and 'not isinstance(self.prototype, Packet)' not in gs:
+            out['unpack_packet'], out['pack_packet'] = up, pk
+        elif 'not isinstance(self.prototype, Packet)' in gs:
+            out['unpack_callable'], out['pack_callable'] = up, pk
+    if len(out) != 4:
+        raise Undecided('cannot identify the packet / callable strategy pairs of Ref from its _compile (found %s)' % sorted(out))
+    return out
